@@ -384,3 +384,21 @@ package manager
 //@   noframe
 //@   assert before call (*Manager).lock#1: loaded: same_slice(arg1, mgr.indexes)
 //@   ensures once: implies(isnil(result1), ncalls("(*Manager).lock") == 1)
+
+// the merge and converter job starters take exactly one handle when (and only when) they start a job; the handle goes to the
+// job's goroutine, whose completion closure gives it back (above)
+//@ func (*Manager).startMergeJobIfNeeded
+//@   prop C13
+//@   nosafety
+//@   noframe
+//@   ensures handle: ncalls("(*Manager).getIndexesCopy") == ite(!old(mgr.mergeJobRunning) && mgr.mergeJobRunning, 1, 0)
+//@   ensures not_stopped: implies(old(mgr.mergeJobRunning), mgr.mergeJobRunning)
+//@   loop 2 invariant ncalls("(*Manager).getIndexesCopy") == 0 && mgr.mergeJobRunning == old(mgr.mergeJobRunning) && !mgr.mergeJobRunning
+
+//@ func (*Manager).startConverterJobIfNeeded
+//@   prop C13
+//@   nosafety
+//@   noframe
+//@   ensures handle: ncalls("(*Manager).getIndexesCopy") == ite(!old(mgr.converterJobRunning) && mgr.converterJobRunning, 1, 0)
+//@   ensures not_stopped: implies(old(mgr.converterJobRunning), mgr.converterJobRunning)
+//@   loop 1 invariant ncalls("(*Manager).getIndexesCopy") == 0 && mgr.converterJobRunning == old(mgr.converterJobRunning) && !mgr.converterJobRunning
